@@ -89,7 +89,11 @@ class _Text(object):
 def _word(rng, hard):
     n = rng.choice([1, 1, 2, 3, 5])
     alph = _LIT + (_LIT_HARD if hard else "")
-    return "".join(rng.choice(alph) for _ in range(n))
+    w = "".join(rng.choice(alph) for _ in range(n))
+    if rng.random() < 0.06:
+        # `#` is an ordinary character for `shlex.split(s)` (comments are off): at the start of a word, inside one, alone
+        w = rng.choice(["#" + w, w + "#" + w, "#", w + "#"])
+    return w
 
 
 def _quoted_word(rng):
